@@ -195,8 +195,26 @@ type skolem struct {
 }
 
 type grounder struct {
-	sks []skolem
-	n   int
+	sks  []skolem
+	refs []string // reference terms of the goal (see indexTerms)
+	n    int
+}
+
+// usedAsRef: the bound variable v occurs as the index of a heap family constant, `(select HEAP v)`: it ranges over
+// references, not over element positions.
+func usedAsRef(x *sx, v string) bool {
+	if !x.isL {
+		return false
+	}
+	if x.head() == "select" && len(x.list) == 3 && !x.list[1].isL && !x.list[2].isL && x.list[2].atom == v {
+		return true
+	}
+	for _, c := range x.list {
+		if usedAsRef(c, v) {
+			return true
+		}
+	}
+	return false
 }
 
 // skolemize walks the goal formula F (which will be asserted NEGATED): a forall at positive polarity of F, or an exists
@@ -251,6 +269,102 @@ func (g *grounder) skolemize(x *sx, pos bool) *sx {
 	return x
 }
 
+// indexTerms adds to the instantiation candidates the index terms of element accesses `(select (select E a) idx)` of
+// the skolemised goal that mention a skolem constant (e.g. `(+ off sk)`): the copy axioms of append/copy and the
+// element clauses of loop invariants are stated over such absolute indices (array property fragment: instantiate
+// index variables with the index terms of the ground part).
+// accessTerms (second round): in the instances produced by the first round, every element access at a position that
+// mentions a skolem, `(select (select E a) idx)`, contributes its array reference a and its index idx as further
+// candidates: hypotheses often speak about the same elements through another array (a copy made by append).
+func (g *grounder) accessTerms(x *sx, nbase int) {
+	if !x.isL {
+		return
+	}
+	if x.head() == "select" && len(x.list) == 3 && x.list[1].head() == "select" && len(x.list[1].list) == 3 {
+		idx := x.list[2].String()
+		mentions := false
+		for _, sk := range g.sks[:nbase] {
+			if strings.Contains(idx, sk.name) {
+				mentions = true
+				break
+			}
+		}
+		if mentions {
+			ref := x.list[1].list[2].String()
+			dup := false
+			for _, r := range g.refs {
+				if r == ref {
+					dup = true
+				}
+			}
+			if !dup && len(g.refs) < 14 {
+				g.refs = append(g.refs, ref)
+			}
+			if x.list[2].isL {
+				dup = false
+				for _, sk := range g.sks {
+					if sk.name == idx {
+						dup = true
+					}
+				}
+				if !dup && len(g.sks) < 12 {
+					g.sks = append(g.sks, skolem{idx, "Int"})
+				}
+			}
+		}
+	}
+	for _, c := range x.list {
+		g.accessTerms(c, nbase)
+	}
+}
+
+func (g *grounder) indexTerms(x *sx) {
+	if !x.isL {
+		return
+	}
+	if x.head() == "select" && len(x.list) == 3 && !x.list[1].isL {
+		// (select HEAP ref): ref is an object / array reference of the goal: candidate for the reference-typed
+		// variables of frame axioms (`forall r :: r != a ==> E'[r] == E[r]`)
+		s := x.list[2].String()
+		dup := false
+		for _, r := range g.refs {
+			if r == s {
+				dup = true
+			}
+		}
+		if !dup && len(g.refs) < 8 {
+			g.refs = append(g.refs, s)
+		}
+	}
+	if x.head() == "select" && len(x.list) == 3 && x.list[1].head() == "select" {
+		idx := x.list[2]
+		if idx.isL {
+			s := idx.String()
+			mentions := false
+			for _, sk := range g.sks {
+				if strings.Contains(s, sk.name) {
+					mentions = true
+					break
+				}
+			}
+			if mentions && len(g.sks) < 12 {
+				dup := false
+				for _, sk := range g.sks {
+					if sk.name == s {
+						dup = true
+					}
+				}
+				if !dup {
+					g.sks = append(g.sks, skolem{s, "Int"})
+				}
+			}
+		}
+	}
+	for _, c := range x.list {
+		g.indexTerms(c)
+	}
+}
+
 func sanitizeSk(s string) string {
 	var sb strings.Builder
 	for _, c := range s {
@@ -290,9 +404,16 @@ func (g *grounder) instantiate(x *sx, pos bool, budget *int) (*sx, bool) {
 				return x, false
 			}
 			srt := b.list[1].String()
+			cands := g.sks
+			if srt == "Int" && usedAsRef(body, b.list[0].atom) {
+				cands = nil
+				for _, r := range g.refs {
+					cands = append(cands, skolem{r, "Int"})
+				}
+			}
 			var next []map[string]*sx
 			for _, t := range tuples {
-				for _, sk := range g.sks {
+				for _, sk := range cands {
 					if sk.sort != srt {
 						continue
 					}
@@ -305,7 +426,7 @@ func (g *grounder) instantiate(x *sx, pos bool, budget *int) (*sx, bool) {
 				}
 			}
 			tuples = next
-			if len(tuples) > 64 {
+			if len(tuples) > 160 {
 				return x, false
 			}
 		}
@@ -411,18 +532,42 @@ func groundQuery(q string) (string, bool) {
 	}
 	g := &grounder{}
 	goal := g.skolemize(gx.list[1].list[1], true)
-	var sb strings.Builder
-	budget := 4000
-	declared := false
+	nsk := len(g.sks)
+	g.indexTerms(goal)
+	// parse the quantified facts once
+	quant := map[int]*sx{}
 	for i, c := range cmds {
-		if !declared && strings.HasPrefix(c, "(assert ") {
-			// the skolem constants are used by the instantiated hypotheses, which precede the goal
-			for _, sk := range g.sks {
+		if i >= gi {
+			break
+		}
+		if strings.HasPrefix(c, "(assert ") && (strings.Contains(c, "(forall ") || strings.Contains(c, "(exists ")) {
+			if x, _, err := parseSx(c); err == nil && x.isL && len(x.list) == 2 {
+				quant[i] = x.list[1]
+			}
+		}
+	}
+	// round 1 (candidates from the goal) only serves to find the further arrays / positions the hypotheses mention
+	{
+		nbase := len(g.sks)
+		b1 := 4000
+		for i := 0; i < gi; i++ {
+			if x, ok := quant[i]; ok {
+				if inst, ok := g.instantiate(x, true, &b1); ok {
+					g.accessTerms(inst, nbase)
+				}
+			}
+		}
+	}
+	var sb, late strings.Builder
+	budget := 12000
+	for i, c := range cmds {
+		if i == gi {
+			// the instantiated hypotheses use the skolem constants and index terms of the goal, whose symbols may be
+			// declared anywhere before the goal: they all go here, after every declaration
+			for _, sk := range g.sks[:nsk] {
 				fmt.Fprintf(&sb, "(declare-const %s %s)\n", sk.name, sk.sort)
 			}
-			declared = true
-		}
-		if i == gi {
+			sb.WriteString(late.String())
 			sb.WriteString("(assert (not " + goal.String() + "))\n")
 			continue
 		}
@@ -434,18 +579,18 @@ func groundQuery(q string) (string, bool) {
 			sb.WriteByte('\n')
 			continue
 		}
-		x, _, err := parseSx(c)
-		if err != nil || !x.isL || len(x.list) != 2 {
-			continue // dropped
+		x, okq := quant[i]
+		if !okq {
+			continue // unparsable: dropped
 		}
-		inst, ok := g.instantiate(x.list[1], true, &budget)
+		inst, ok := g.instantiate(x, true, &budget)
 		if !ok {
 			continue // a positive quantifier we cannot instantiate: drop the fact (sound)
 		}
 		if !inst.isL && inst.atom == "true" {
 			continue
 		}
-		sb.WriteString("(assert " + inst.String() + ")\n")
+		late.WriteString("(assert " + inst.String() + ")\n")
 	}
 	return sb.String(), true
 }
